@@ -12,6 +12,8 @@ from __future__ import annotations
 import vlib.boot  # noqa: F401
 from vlib.boot import B, drive
 from vlib.ob import obligation
+from vlib.h_handlers import conc  # noqa: E402
+from vlib.h_idle import install_speedups  # noqa: E402
 from workflows import Context, Workflow, step  # noqa: F401,E402  (module scope for step annotations)
 from workflows.events import Event as _Event  # noqa: E402
 from vlib.world import (
@@ -27,6 +29,8 @@ from workflows.runtime.types.results import AddCollectedEvent, AddWaiter, StepWo
 from workflows.runtime.types.ticks import (
     TickAddEvent, TickIdleCheck, TickStepResult, TickTimeout, TickWaiterTimeout,
 )
+
+install_speedups()  # tooling only (whole-run obligation); every solver decision is taken before the scenario starts
 
 ENCODED = [
     "workflows.runtime.control_loop:_reduce_tick",
@@ -197,8 +201,8 @@ def ob_runner_idle_check(nw: int, b0: bool, b1: bool, q: int, wk: int, running: 
 
 
 @obligation(quick=150, thorough=600,
-            partitions_quick=[f"nfail == {f} and inject == {i}" for f in range(3) for i in (-1, 1, 2, 3)],
-            partitions_thorough=[f"nfail == {f} and inject == {i} and delay == {d}" for f in range(3) for i in (-1, 1, 2, 3, 4, 5) for d in range(3)],
+            partitions_quick=[f"nfail == {f} and inject {i}" for f in range(3) for i in ("== -1", "== 0", "== 1", "== 2", ">= 3")],
+            partitions_thorough=[f"nfail == {f} and inject == {i} and delay == {d}" for f in range(3) for i in (-1, 0, 1, 2, 3, 4, 5) for d in range(3)],
             what="bounded reach: real runner macro-steps of a retrying one-step run (symbolic delay, attempts, failure count, "
                  "clock increments, one injected unhandled external event): at every idle announcement nothing is queued, running, "
                  "scheduled for retry, buffered or pending start",
@@ -299,6 +303,8 @@ def ob_whole_run_idle(sends: int, nfail: int, delay: int, c0: int, c1: int, c2: 
     from workflows.events import Event
     from workflows.retry_policy import retry_policy, stop_after_attempt, wait_fixed
 
+    sends, nfail, delay, c0, c1, c2, c3, c4 = (conc(sends, 0, 1), conc(nfail, 0, 1), conc(delay, 0, 1), conc(c0, 0, 2), conc(c1, 0, 2),
+                                               conc(c2, 0, 2), conc(c3, 0, 2), conc(c4, 0, 2))
     env = Env([c0, c1, c2, c3, c4])
     book = {"emitted": 0, "finished": 0, "fails": 0, "bad": False, "idles": 0}
 
